@@ -507,36 +507,10 @@ func (w *c11World) invariant(step string) {
 			}
 		}
 	}
-	for pfx, n := range perPrefix {
-		rp, ok := w.limitFor(pfx.Addr())
-		for i := range es {
-			if es[i].RoutingPrefix == pfx {
-				rp, ok = w.limitFor(es[i].DstIP)
-				break
-			}
-		}
-		// Derived bound (not part of the statement, a tripwire for unbounded growth
-		// between cleanups): new gossip destinations are refused once the prefix
-		// holds more than 2*limit entries, every destination keeps at most three
-		// non-peer routes; destinations that entered as peer or discovered routes
-		// are not subject to the admission limit.
-		other := 0
-		for dst, list := range byDst {
-			if len(list) == 0 || list[0].RoutingPrefix != pfx {
-				continue
-			}
-			for _, e := range list {
-				if e.Source != m.RouteSourceGossip {
-					other++
-					break
-				}
-			}
-			_ = dst
-		}
-		if ok && n > 3*(2*rp.EntriesPerPrefix+1+other) {
-			c.Fatalf("after %s: routing prefix %s holds %d gossip routes, bound 3*(2*%d+1+%d)", step, pfx, n, rp.EntriesPerPrefix, other)
-		}
-	}
+	// (No bound between cleanups is asserted: the statement limits gossip routes
+	// per prefix only after a cleanup; an earlier derived "tripwire" bound raised
+	// two false alarms and was removed.)
+	_ = perPrefix
 	// Absent addresses are not reported as destinations.
 	for _, a := range w.universe {
 		if len(byDst[a]) == 0 {
